@@ -2,6 +2,7 @@
 import datetime as dt
 import decimal
 import math
+import warnings
 from fractions import Fraction
 
 import numpy as np
@@ -195,9 +196,14 @@ def oracle(ctx):
     for t in inst[:300]:
         us = us_of(t)
         ref = float(astronomy.jdays(t))
-        for val in (np.datetime64(us, "us"), np.datetime64(us * 1000, "ns"), np.array([t], dtype=object), np.array([np.datetime64(us, "us")])):
+        off = ctx.rng.choice([60, -480, 330, 0, 765])      # minutes: the same instant spelled in another UTC offset
+        aware = t.replace(tzinfo=dt.timezone.utc).astimezone(dt.timezone(dt.timedelta(minutes=off)))
+        for val in (np.datetime64(us, "us"), np.datetime64(us * 1000, "ns"), np.array([t], dtype=object), np.array([np.datetime64(us, "us")]),
+                    t.replace(tzinfo=dt.timezone.utc), aware):
             ctx.count("eval_oracle_repr")
-            got = np.atleast_1d(astronomy.jdays(val))[0]
+            with warnings.catch_warnings():
+                warnings.simplefilter("ignore")      # numpy warns that datetime64 has no time zone (it converts to UTC)
+                got = np.atleast_1d(astronomy.jdays(val))[0]
             if abs(float(got) - ref) > 1e-9:
                 ctx.violation("representation", {"utc": t.isoformat(), "repr": str(type(val)) + str(getattr(val, "dtype", ""))},
                               float(got), ref, site="astronomy.jdays")
